@@ -183,6 +183,9 @@ type c03Endpoint struct {
 	faultAt  int // abort before write index faultAt (-1: none)
 	aborted  bool
 	paused   bool
+	now      func() time.Duration
+	abortAt  time.Duration // when this endpoint reset its connection
+	endAt    time.Duration // when this endpoint's reader saw end-of-stream or an error
 }
 
 func (e *c03Endpoint) run() {
@@ -194,6 +197,11 @@ func (e *c03Endpoint) run() {
 	go func() { // reader
 		defer wg.Done()
 		defer close(e.eofCh)
+		defer func() {
+			if e.now != nil {
+				e.endAt = e.now()
+			}
+		}()
 		if e.needHead != "" {
 			rh, rest, err := readHead(e.conn, 1<<16)
 			if err != nil {
@@ -264,6 +272,9 @@ func (e *c03Endpoint) run() {
 			continue
 		}
 		if e.faultAt >= 0 && i >= e.faultAt {
+			if e.now != nil {
+				e.abortAt = e.now()
+			}
 			e.raw.Abort()
 			e.aborted = true
 			break
@@ -284,6 +295,9 @@ func (e *c03Endpoint) run() {
 	}
 	e.sent = off
 	if e.faultAt >= len(e.script.Writes) && !e.aborted {
+		if e.now != nil {
+			e.abortAt = e.now()
+		}
 		e.raw.Abort()
 		e.aborted = true
 	}
@@ -354,7 +368,7 @@ func runC03(env *core.Env, ci any) {
 	// farSide runs the target end of tunnel t on conn (after any handshake).
 	farSide := func(t *c03Tunnel, conn net.Conn, raw *simnet.Conn, pre []byte, reply []byte) {
 		ep := &c03Endpoint{name: "target", conn: conn, raw: raw, script: c.Target, sendID: uint64(t.idx)*2 + 1000 + env.Seed<<8,
-			recvID: uint64(t.idx)*2 + 1001 + env.Seed<<8, pre: pre, faultAt: -1}
+			recvID: uint64(t.idx)*2 + 1001 + env.Seed<<8, pre: pre, faultAt: -1, now: env.Sched.Elapsed}
 		if c.Fault == "target-rst" {
 			ep.faultAt = c.FaultAt % (len(c.Target.Writes) + 1)
 		}
@@ -541,7 +555,7 @@ func runC03(env *core.Env, ci any) {
 				conn = tc
 			}
 			ep := &c03Endpoint{name: "client", conn: conn, raw: raw, script: c.Client, recvID: uint64(t.idx)*2 + 1000 + env.Seed<<8,
-				sendID: uint64(t.idx)*2 + 1001 + env.Seed<<8, faultAt: -1}
+				sendID: uint64(t.idx)*2 + 1001 + env.Seed<<8, faultAt: -1, now: env.Sched.Elapsed}
 			if c.Fault == "client-rst" {
 				ep.faultAt = c.FaultAt % (len(c.Client.Writes) + 1)
 			}
@@ -646,6 +660,13 @@ func runC03(env *core.Env, ci any) {
 				if d.from.writeErr != nil {
 					env.Fail("tunnel-write-error", c.Route, "tunnel %d %s: write failed: %v", t.idx, d.dir, d.from.writeErr)
 				}
+			}
+		}
+		// a reset ends the stream too: the surviving endpoint must learn of it at once, not when the grace period for the
+		// other direction runs out (nothing on the way needs time: no limit, no timer)
+		for _, d := range []struct{ gone, left *c03Endpoint }{{t.client, t.target}, {t.target, t.client}} {
+			if d.gone.aborted && !d.left.aborted && d.left.endAt-d.gone.abortAt > time.Second {
+				env.Fail("tunnel-reset-not-passed-on", c.Route, "tunnel %d: the %s reset its connection at %v; the %s saw its incoming stream end only at %v (eof=%v err=%v)", t.idx, d.gone.name, d.gone.abortAt, d.left.name, d.left.endAt, d.left.gotEOF, d.left.readErr)
 			}
 		}
 		if t.client.script.WaitPeerFIN >= 0 || t.target.script.WaitPeerFIN >= 0 {
